@@ -103,6 +103,16 @@ def at_scale_case(ctx, g, rng):
         P = [r.prefix for r in rng.sample(a, k=40)] + ["Q0", "zz"]
         call(res.get_subconverter, P)
         call(res.get_subconverter, ctx.pd.Series(P, dtype=object))
+        # the parent, already subset once, learns new synonyms through merges (its number of records stays what it is)
+        # and is subset again by exactly those synonyms
+        learnt = []
+        for r in rng.sample(a, k=5):
+            alias = "alias" + r.prefix
+            call(res.add_prefix, alias, r.uri_prefix, merge=True)
+            learnt.append(alias)
+        call(res.get_subconverter, learnt[:2])
+        call(res.get_subconverter, [learnt[-1]])
+        call(res.get_subconverter, learnt + ["zz"])
     probe.note_key(f"at-scale:n{n}:{o[0]}", True)
 
 
@@ -180,7 +190,11 @@ def run_case(ctx, g, rng):
         P = set(rng.sample(allp + ["zz"], k=rng.randint(1, min(3, len(allp) + 1))))
     # P handed over in every spelling a caller may use: set, list, one-shot iterable, dict keys, a column of a data
     # frame (the use the method's documentation describes), an array
-    carrier = rng.choice(["set", "list", "generator", "dict-keys", "series", "series-with-string-index", "array", "tuple"])
+    carrier = rng.choice(["set", "list", "generator", "dict-keys", "series", "series-with-string-index", "array", "tuple", "bare-string"])
+    if carrier == "bare-string":
+        # a bare string is an iterable of its characters: P is the set of one-letter prefixes it spells
+        word = "".join(rng.sample(["a", "A", "b", "B", "c", "C", "s"], k=rng.randint(1, 3)))
+        P = set(word)
     S.counters[f"wl:prefixes-handed-over-as:{carrier}"] += 1
     ordered_p = sorted(P)
     if carrier == "set":
@@ -195,6 +209,8 @@ def run_case(ctx, g, rng):
         arg = ctx.pd.Series(ordered_p, dtype=object)
     elif carrier == "series-with-string-index":
         arg = ctx.pd.Series(ordered_p, index=[f"r{i}" for i in range(len(ordered_p))], dtype=object)
+    elif carrier == "bare-string":
+        arg = word
     elif carrier == "array":
         arg = ctx.np.array(ordered_p, dtype=object)
     else:
